@@ -429,13 +429,74 @@ def part_b(run, rng, quick, deadline):
     return n_eval, distinct
 
 
+def part_raw(run, rng, quick):
+    """raw operator tables in the convention of the `construct_symbolic_mpo` docstring (label 0 = identity on EVERY site,
+    labels 1.. = other elementary operators): bond after the first site = minimum cover of the first cut, no bond above the
+    number of distinct left / right partial terms, and the symbolic operator evaluates to the table's polynomial."""
+    from renormalizer.model import Op
+    from renormalizer.mps.symbolic_mpo import construct_symbolic_mpo
+    n_eval = 0
+    for it in range(120 if quick else 1500):
+        nsite = int(rng.integers(2, 6))
+        nlabel = int(rng.integers(2, 5))
+        nterm = int(rng.integers(2, 10))
+        rows = {tuple(int(x) for x in rng.integers(0, nlabel, size=nsite)) for _ in range(nterm)}
+        if rng.random() < 0.5:      # neighbouring incoming operators next to the highest and the lowest label
+            base = tuple(int(x) for x in rng.integers(0, nlabel, size=nsite))
+            for a in range(nlabel):
+                rows.add((a,) + (nlabel - 1,) + base[2:] if nsite > 2 else (a, nlabel - 1))
+                rows.add((a,) + (0,) + base[2:] if nsite > 2 else (a, 0))
+        table = np.array(sorted(rows), dtype=np.uint16)
+        if len(table) < 2:
+            continue
+        factor = np.round(rng.uniform(0.5, 2.0, size=len(table)) * rng.choice([-1, 1], size=len(table)), 3)
+        primary_ops = [Op("I", 0)] + [Op(f"x^{k}", 0) for k in range(1, nlabel)]
+        kept = [tuple(int(x) for x in r) for r in table]
+        mats = cut_matrices(kept, nsite)
+        adj = [list(np.nonzero(r)[0]) for r in mats[0]]
+        k1, _mv = L.max_matching(adj, mats[0].shape[1])
+        vals = rng.uniform(0.5, 1.5, size=(nsite, nlabel))
+        want = float(sum(f * np.prod([vals[i, r[i]] for i in range(nsite)]) for f, r in zip(factor, kept)))
+        for algo in ALGOS:
+            rep = dict(part="raw-table", table=table.tolist(), factor=factor.tolist(), algo=algo, labels=nlabel,
+                       encoding="rows = terms, columns = sites, entries = label of the elementary operator (0 = identity)")
+            try:
+                res = construct_symbolic_mpo(table.copy(), primary_ops, factor.copy(), algo=algo)
+            except Exception as e:  # noqa
+                report(run, f"raw-table:{algo}:raises:{type(e).__name__}", dict(rep, error=repr(e)[:300]))
+                continue
+            n_eval += 1
+            mpo = res[0]
+            bonds = [1] + [int(m.shape[1]) for m in mpo]
+            rep["observed_bond_dims"] = bonds
+            run.count("raw-table:checked")
+            if nsite >= 2 and bonds[1] != k1:
+                report(run, f"raw-table:{algo}:first-bond-not-minimum-cover", dict(rep, expected_first_bond=int(k1)))
+                continue
+            if any(o > min(A.shape) for o, A in zip(bonds[1:-1], mats)):
+                report(run, f"raw-table:{algo}:bond-exceeds-distinct-partial-terms", rep)
+                continue
+            vec = np.ones((1,))
+            sym2lab = {op.symbol: i for i, op in enumerate(primary_ops)}
+            for i, mo in enumerate(mpo):
+                M = np.zeros(mo.shape)
+                for (a, b), lst in np.ndenumerate(mo):
+                    M[a, b] = sum(float(np.real(o.factor)) * vals[i, sym2lab[o.symbol]] for o in lst)
+                vec = vec @ M
+            got = float(vec[0])
+            if abs(got - want) > 1e-9 * max(1.0, float(np.sum(np.abs(factor))) * 1.5 ** nsite):
+                report(run, f"raw-table:{algo}:operator-differs-from-table", dict(rep, got=got, want=want))
+    return n_eval
+
+
 def search(run, rng, quick):
     t0 = time.time()
     ea, da = part_a(run, rng, quick)
     deadline = t0 + (50 if quick else 540)
     eb, db = part_b(run, rng, quick, deadline)
+    er = part_raw(run, rng, quick)
     run.sample(dict(part="A", graphs_judged=ea))
-    run.cov["evaluations"] = run.cov.get("evaluations", 0) + ea + eb
+    run.cov["evaluations"] = run.cov.get("evaluations", 0) + ea + eb + er
     run.cov["distinct_nontrivial"] = run.cov.get("distinct_nontrivial", 0) + da + db
     run.cov["rule"] = ("part A: one per graph with at least one edge (enumerated graphs are distinct by construction; random "
                        "graphs counted once each); part B: distinct deduplicated term tables with >= 2 rows and a cut of "
